@@ -146,6 +146,13 @@ fn main() {
         eprintln!("usage: cl_replay <family> [quick|thorough]");
         std::process::exit(2);
     }
+    if args[1] == "gen-key-2048" {
+        // one-off: a CL2048Sha256 issuer key made by the real KeyPair::generate (kept as fixtures/cl2048_keypair.json: 2048-bit
+        // safe-prime generation takes from ten seconds to minutes, too long for every check)
+        let kp = zkryptium::keys::pair::KeyPair::<zkryptium::schemes::algorithms::CL03<CL2048Sha256>>::generate();
+        println!("{}", serde_json::to_string(&kp).unwrap());
+        return;
+    }
     let thorough = args.get(2).map(|s| s == "thorough").unwrap_or(false);
     let mut out = Out { fam: args[1].clone(), probes: Vec::new() };
     match args[1].as_str() {
